@@ -57,7 +57,7 @@ AUTH = ["A B <a@b.org>", "Ünï Cöde <u@example.com>", "X <x@y>", "Mr. O'Neil, 
 DATES = ["Mon, 01 Jan 2024 10:00:00 +0000", "Tue, 2 Feb 2021 09:08:07 -0500",
          "Sat, 31 Dec 2022 23:59:59 +1300"]
 CHANGES = ["  * Fix a bug.", "  * New upstream release (closes: #123456, #7)", "    continuation",
-           "  [ Someone ]", "  * lp: #99", "", "  * ünï"]
+           "  [ Someone ]", "  * lp: #99", "", "  * ünï", "  * 50% faster; %s, {0} and \\1 kept"]
 INSERT = {
     "header": ["hello (1.0-1) unstable; urgency=low", "hello (1.0) unstable", "x (1) a; urgency",
                "PKG (2) a b c; urgency=low, x=y", "p (1.0) u; urgency=low (c), foo=bar, urgency=high",
@@ -66,8 +66,10 @@ INSERT = {
                 " -- A B <a@b.org> Mon, 01 Jan 2024 10:00:00 +0000", " --", " -- ", " --  ",
                 " -- A <a@b.c>", " -- A <a@b.c>  garbage date", "-- A <a@b.c>  Mon, 01 Jan 2024 10:00:00 +0000",
                 " -- <>  1 Jan 2024 1:00:00 +0000"],
-    "change": ["  * change", "   more", "", "  ", "\t* tab", " one space"],
-    "junk": ["junk", "Hello World", "=====", "* not indented", "  "],
+    "change": ["  * change", "   more", "", "  ", "\t* tab", " one space", "  * 100% done, %s {0}"],
+    # incl. text that means something to a formatter (%, {}, backslash group references)
+    "junk": ["junk", "Hello World", "=====", "* not indented", "  ", "100% junk", "%s and %d",
+             "{0} {} {x}", "back\\1slash \\g<0>", "%(name)s"],
     "mode": ["vim: set ft=changelog:", "Local variables:", ";; Local variables:", "VIM: x"],
     "old": ["Old Changelog:", "Changes for foo-bar:", "Changes from version 1 to 2:",
             "Mon Jan  1 10:00:00 2024  A B  <a@b.org>", "hello 1.0 Debian 1", "hello (0.9)", "1.0:"],
